@@ -31,6 +31,17 @@ func TestProbe(t *testing.T) {
 	}
 	t.Logf("bound plan:\n%s", sql.DebugString(ctx, n))
 	t.Logf("literal plan:\n%s", s.Plan("SELECT t.id FROM t WHERE (t.d <> -0.25) ORDER BY t.id"))
+	q2 := "SELECT t.id FROM t IGNORE INDEX (kx1) WHERE (t.d <> ?) ORDER BY t.id"
+	stmt2, _, _ := sqlparser.ParseOne(ctx, q2)
+	n2, err := f.Engine.BoundQueryPlan(s.Ctx(context.Background()), q2, stmt2, b)
+	if err != nil {
+		t.Fatal(err)
+	}
+	t.Logf("bound plan, no index:\n%s", sql.DebugString(ctx, n2))
+	t.Logf("eq bound:   %s", s.ExecB("SELECT t.id FROM t WHERE (t.d = ?) ORDER BY t.id", b))
+	t.Logf("in bound:   %s", s.ExecB("SELECT t.id FROM t WHERE (t.d IN (?, 100.125)) ORDER BY t.id", b))
+	t.Logf("in literal: %s", s.Exec("SELECT t.id FROM t WHERE (t.d IN (-0.25, 100.125)) ORDER BY t.id"))
+	t.Logf("same-type literal: %s", s.Exec("SELECT t.id FROM t WHERE (t.d <> CAST(-0.25 AS DECIMAL(12,2))) ORDER BY t.id"))
 	// the same without prepared statements: a literal of another decimal type
 	t.Logf("cast:    %s", s.Exec("SELECT t.id FROM t WHERE (t.d <> CAST(-0.25 AS DECIMAL(20,10))) ORDER BY t.id"))
 	t.Logf("wide:    %s", s.Exec("SELECT t.id FROM t WHERE (t.d <> -0.2500000000) ORDER BY t.id"))
